@@ -22,10 +22,13 @@ import (
 
 // ---- common parts of the Node-based harnesses ------------------------------------------------
 
+var vBgMarked bool
+
 func init() {
 	uuid.SetRand(vrand.Reader)
 	vsched.OnReset(func() {
 		randSource = saferand.New(1)
+		vBgMarked = false
 	})
 }
 
@@ -257,6 +260,12 @@ type vClient struct {
 }
 
 func vNewClient(n *Node, t *vTransport, cred *Credentials) *vClient {
+	if !vBgMarked {
+		// everything that runs before the first connection exists is node housekeeping
+		vBgMarked = true
+		vsched.WaitIdle()
+		vsched.BackgroundExisting()
+	}
 	ctx := context.Background()
 	if cred != nil {
 		ctx = SetCredentials(ctx, cred)
